@@ -273,4 +273,4 @@ def run(P, rep, tier):
     rep.rule('R02.14', 'include/float.h: every macro C11 5.2.4.2.2 lists is defined, and its value and type are the characteristic of the format the compiler gives the type '
              '(object size from type.c, register class from the load template of codegen.c: float = binary32, double = binary64, long double = x87 extended); integer '
              'characteristics are usable in #if', floor=80)
-    r_float_h(P, rep, 'R02.14')
+    r_float_h(P, rep, 'R02.14', cg)
